@@ -5,9 +5,13 @@
    the directive instances attached to scalars, input objects, input fields and arguments.
    PARTIAL: the wiring of each type's bake() (which hook list is attached to which coercer) is
    transcribed, and tied to the code by the correspondence check on generated schemas; enum-value /
-   enum-type and abstract-type output hooks are exercised by the check only. *)
+   enum-type and abstract-type output hooks are exercised by the check only.
+   Output side (Model/DirectivesOut.v, Proofs/DirectiveOutProofs.v): object / list / leaf positions annotated with
+   their directive instances; what is executed (hooks logging in order) equals the pure view for every annotated
+   type and value, and a type's on_pre_output_coercion hooks meet EVERY value at a position of that type, null
+   results and null list items included. *)
 From Coq Require Import ZArith List String Bool.
-From TV Require Import Py.Prelude Model.Schema Model.Directives Proofs.DirectiveProofs.
+From TV Require Import Py.Prelude Model.Schema Model.Directives Model.DirectivesOut Proofs.DirectiveProofs Proofs.DirectiveOutProofs.
 Import ListNotations.
 Open Scope string_scope.
 Open Scope list_scope.
@@ -54,7 +58,41 @@ Example C13_example :
   TObj [("f", TLeaf "a(o(i(t3(t1(w)))))"); ("g", TLst [TLeaf "a(o(t3(t1(x))))"])].
 Proof. vm_compute. repeat split. Qed.
 
+(* output side: executing the coercers of an annotated output type, hooks logging their invocations, gives the
+   value with the applicable tags and exactly the invocations of the pure view, in order *)
+Theorem C13_output_hooks_as_executed t v log :
+  output_run t v log = (output_coerce t v, log ++ output_log t v).
+Proof. exact (output_run_spec t v log). Qed.
+
+(* each applicable instance of the item type is invoked once per list item, null items included *)
+Theorem C13_list_items_each_once ds xs :
+  output_log (OListOf (OScalar ds)) (TLst xs) = flat_map (fun _ => events ds PRE_OUTPUT) xs.
+Proof. exact (list_items_each_once ds xs). Qed.
+
+Theorem C13_list_items_invocation_count ds xs :
+  List.length (output_log (OListOf (OScalar ds)) (TLst xs)) =
+  (List.length xs * List.length (filter (has_hook PRE_OUTPUT) ds))%nat.
+Proof. exact (list_items_invocation_count ds xs). Qed.
+
+Theorem C13_null_meets_the_type_hooks ds fields :
+  output_log (OScalar ds) TNull = events ds PRE_OUTPUT /\
+  output_log (OObject ds fields) TNull = events ds PRE_OUTPUT /\
+  output_coerce (OObject ds fields) TNull = TNull /\ output_coerce (OScalar ds) TNull = TNull.
+Proof. exact (null_meets_the_type_hooks ds fields). Qed.
+
+Example C13_output_example :
+  let Tg := OScalar [D "t1" [PRE_OUTPUT]; D "t2" [POST_INPUT]] in
+  let Out := OObject [D "o" [PRE_OUTPUT]] [("v", [D "f" [FIELD_EXEC]], Tg); ("vs", [], OListOf Tg)] in
+  output_run (OListOf Out) (TLst [TObj [("v", TLeaf "s"); ("vs", TLst [TLeaf "a"; TNull])]; TNull]) [] =
+  (TLst [TObj [("v", TLeaf "t1(f(o(s)))"); ("vs", TLst [TLeaf "t1(o(a))"; TNull])]; TNull],
+   [("o", PRE_OUTPUT, 0%Z); ("t1", PRE_OUTPUT, 0%Z); ("t1", PRE_OUTPUT, 0%Z); ("t1", PRE_OUTPUT, 0%Z); ("o", PRE_OUTPUT, 0%Z)]).
+Proof. vm_compute. reflexivity. Qed.
+
 Print Assumptions C13_first_declared_outermost.
 Print Assumptions C13_query_wraps_schema.
 Print Assumptions C13_each_hook_once_in_order.
 Print Assumptions C13_literal_eq_variable_hooks.
+Print Assumptions C13_output_hooks_as_executed.
+Print Assumptions C13_list_items_each_once.
+Print Assumptions C13_list_items_invocation_count.
+Print Assumptions C13_null_meets_the_type_hooks.
